@@ -89,6 +89,7 @@ class Ctx:
         self.sheap = {}            # SMT heap maps (key -> z3 array)
         self.alloc = z3.Const("alloc0", z3.ArraySort(I, B))   # references allocated so far (arbitrary at entry: modular)
         self.fresh_refs = []       # refs of SMT objects/lists allocated on this path
+        self.preexisting = set()   # concrete-heap addresses of objects built by module-level assignments (exist before any call)
         self.no_branch = 0
         self.merge_fresh = set()
         self.keep_ids = set()      # ids of heap-frame facts (glue between heap versions): survive loop-cut resets
@@ -290,7 +291,7 @@ class Ctx:
 
     def cell_write(self, addr, what, node):
         """a store into a concrete-heap object/list/dict that existed when the verified function was entered"""
-        if self.entry_addr is not None and addr < self.entry_addr:
+        if (self.entry_addr is not None and addr < self.entry_addr) or addr in self.preexisting:
             self.written.append(("cell", addr, what, node))
 
     def mutating(self, ref=None):
